@@ -194,3 +194,14 @@ inst!(c04_bwt_n6, 10, bwt_def::<6>());
 inst!(c04_invert_n2, 74, invert::<2>());
 inst!(c04_invert_n4, 74, invert::<4>());
 inst!(c04_invert_n5, 74, invert::<5>());
+
+#[cfg(kani)]
+pub fn probe_alpha_collect() {
+    let alphabet = Alphabet::new(b"AC");
+    let alpha = alphabet.symbols.iter().collect::<Vec<usize>>();
+    assert!(alpha.len() == 2);
+    let x: u8 = kani::any();
+    kani::cover!(alpha[0] == x as usize);
+    core::mem::forget(alpha);
+}
+inst!(c04_probe_alpha_collect, 70, probe_alpha_collect());
